@@ -409,6 +409,8 @@ def runMonitor (prop : String) (ops obs : Array String) : IO Unit := do
   let mut pre : State := {}
   let mut preTok : List String := []
   let mut m07 : Spec.C07.Mon := {}
+  let mut m08 : Spec.C08.Mon := {}
+  let mut m13 : Spec.C13S.Mon := {}
   let mut fails := 0
   let mut steps := 0
   let mut havePre := false
@@ -423,6 +425,8 @@ def runMonitor (prop : String) (ops obs : Array String) : IO Unit := do
         | some s =>
           base := s0; ds := dl; pre := s; preTok := o; havePre := true
           m07 := {}
+          m08 := {}
+          m13 := {}
           -- the reset line's own observation must be what the reset line says
           if showState s0 dl ≠ joinWith " " (o.drop 1) then
             out.putStrLn (failLine prop "reset-state" "" (i+1)); fails := fails + 1
@@ -444,6 +448,16 @@ def runMonitor (prop : String) (ops obs : Array String) : IO Unit := do
           if prop = "C07" then
             let (m', fl) := Spec.C07.check ds m07 pre op accepted post
             m07 := m'
+            for f in fl do
+              out.putStrLn (failLine prop f.clause f.cls (i+1)); fails := fails + 1
+          if prop = "C08" then
+            let (m', fl) := Spec.C08.check m08 pre op accepted post
+            m08 := m'
+            for f in fl do
+              out.putStrLn (failLine prop f.clause f.cls (i+1)); fails := fails + 1
+          if prop = "C13" then
+            let (m', fl) := Spec.C13S.check m13 pre op accepted post
+            m13 := m'
             for f in fl do
               out.putStrLn (failLine prop f.clause f.cls (i+1)); fails := fails + 1
           pre := post; preTok := o
